@@ -67,6 +67,7 @@ def main():
 
     # 2. correspondence + oracle, per harness build
     evaluations = 0
+    extra_distinct = 0
     distinct = set()
     samples = []
     stats = {}
@@ -94,8 +95,11 @@ def main():
                         oracle_fail.append(item)
         else:
             requests = mod.corpus(build) + mod.generate(rng.fork(build), tier, build)
-        rc1, impl, e1 = C.run_lines(binary, ["run"], requests)
-        rc2, model, e2 = C.run_lines(C.driver_path(), [], mod.model_requests(requests, build) if hasattr(mod, "model_requests") else requests)
+        if requests:
+            rc1, impl, e1 = C.run_lines(binary, ["run"], requests)
+            rc2, model, e2 = C.run_lines(C.driver_path(), [], mod.model_requests(requests, build) if hasattr(mod, "model_requests") else requests)
+        else:
+            impl, model, e1, e2 = [], [], "", ""
         if len(impl) != len(requests):
             problems.append(("correspondence", "harness (%s) died after %d of %d requests: %s" % (build, len(impl), len(requests), e1[-300:]),
                              {"request": requests[len(impl)] if len(impl) < len(requests) else None, "build": build}))
@@ -127,6 +131,8 @@ def main():
                 elif kind == "count":
                     evaluations += item["n"]
                     stats[item["what"]] = stats.get(item["what"], 0) + item["n"]
+                    extra_distinct += item.get("distinct", 0)
+                    samples.extend(item.get("samples", [])[:3])
                 elif kind == "note":
                     notes.append(item["text"])
 
@@ -170,7 +176,7 @@ def main():
             "checker_cmd": "cd /verif/lean && lake build %s && lake env lean .lake/audit/%s_audit.lean  (#print axioms on every theorem; thorough: lake env leanchecker %s)" % (lean_module, prop, lean_module),
             "trusted_base": ["Lean 4.33 kernel", "axioms: propext, Classical.choice, Quot.sound only (audited this run)", "hand-written model tied to /repo by the differential correspondence below", "harness/ (Rust), vlib/ + check.py (Python)"] + list(getattr(mod, "TRUSTED", [])),
             "theorems": {k: ",".join(v) for k, v in ax_details.items()},
-            "evaluations": evaluations, "distinct_nontrivial": len(distinct),
+            "evaluations": evaluations, "distinct_nontrivial": len(distinct) + extra_distinct,
             "rule": getattr(mod, "RULE", ""),
             "samples": samples,
             "case_classes": stats,
@@ -190,7 +196,7 @@ def main():
     for kid, (k, f) in sorted(known_hit.items()):
         print("KNOWN-FINDING: property=%s %s [%s] e.g. %s -> %s" % (prop, k["what"], kid, f["request"][:160], f["impl"][:60]))
     print("%s tier=%s seed=%d: theorems %d/%d, %d cases (%d distinct non-trivial), %d disagreements, %d oracle failures, %.1fs" %
-          (prop, tier, seed, discharged, obligations, evaluations, len(distinct), len(disagreements), len(oracle_fail), wall))
+          (prop, tier, seed, discharged, obligations, evaluations, len(distinct) + extra_distinct, len(disagreements), len(oracle_fail), wall))
     if violation is None:
         sys.exit(0)
     os.makedirs(os.path.join(C.VERIF, "replays"), exist_ok=True)
